@@ -224,6 +224,8 @@ type rig struct {
 	fresh   atomic.Int64
 	elim    map[string]*rate.Limiter // question name -> the entry limiter the cache charges
 	elimQ   []string                 // those names, in order of first use
+	names   map[string]string        // model question -> name of this rig
+	slots   map[*rate.Limiter]bool   // pool slots taken by this rig's names
 	elimOrg map[*rate.Limiter]rate.Limit
 
 	// gating of the scripted upstream
@@ -236,7 +238,7 @@ var rigSeq atomic.Int64
 
 func newRig(burst, storeCap, entryBurst int, clients, forms []string, book *cookieBook) (*rig, error) {
 	r := &rig{burst: burst, entryBurst: entryBurst, book: book, clients: clients, forms: forms,
-		hits: map[string]int{}, jobs: map[int]*pendingJob{}, elim: map[string]*rate.Limiter{}, elimOrg: map[*rate.Limiter]rate.Limit{},
+		hits: map[string]int{}, names: map[string]string{}, slots: map[*rate.Limiter]bool{}, jobs: map[int]*pendingJob{}, elim: map[string]*rate.Limiter{}, elimOrg: map[*rate.Limiter]rate.Limit{},
 		gates: map[string]chan struct{}{}, parked: make(chan string, 64)}
 	r.tag = fmt.Sprintf("r%d", rigSeq.Add(1))
 	r.period = time.Minute / time.Duration(burst)
@@ -376,7 +378,27 @@ func (r *rig) qname(q string) string {
 	if q == "fresh" {
 		return fmt.Sprintf("f%d.%s.x06rl.test.", r.fresh.Add(1), r.tag)
 	}
-	return fmt.Sprintf("%s.%s.x06rl.test.", q, r.tag)
+	r.mu.Lock()
+	defer r.mu.Unlock()
+	if n, ok := r.names[q]; ok {
+		return n
+	}
+	// the per-entry limiters live in a process-wide pool of 997 slots keyed by the question's cache key: two
+	// questions of one rig must not share a slot, so a name is salted until its slot is unused by this rig
+	name := fmt.Sprintf("%s.%s.x06rl.test.", q, r.tag)
+	if r.entryBurst > 0 {
+		for salt := 1; salt < 50; salt++ {
+			key := cache.CacheKey{Question: dns.Question{Name: name, Qtype: dns.TypeA, Qclass: dns.ClassINET}}.Hash()
+			l := cache.VerifX06EntryLimiter(r.entryBurst, key)
+			if l == nil || !r.slots[l] {
+				r.slots[l] = true
+				break
+			}
+			name = fmt.Sprintf("%s.s%d%s.x06rl.test.", q, salt, r.tag)
+		}
+	}
+	r.names[q] = name
+	return name
 }
 
 // ---- the per-entry limiter of the cache (cfg.RateLimit) ------------------------------------
